@@ -201,3 +201,21 @@ CHECKS["C18"] = {
          "checks_quick": 500, "checks_thorough": 20000, "shards_quick": 4, "shards_thorough": 16, "timeout_quick": 300, "timeout_thorough": 1800},
     ],
 }
+
+CHECKS["C17"] = {
+    "level": "exploration",
+    "technique": "round-trip property testing over typed boundary values, arbitrary-byte keys and sizes around the limits (rapid)",
+    "level_text": ("codec: every supported type (all integer widths with extremes, float32/64 incl. max, denormal, -0, +-Inf, NaN, bool, strings/byte slices that are empty, binary, contain CR/LF or are up to 70 KB, time in years 1-9999 in random zones, "
+                   "duration, a BinaryMarshaler) is encoded and scanned back into the same type. e2e: typed values under keys of 1-255 arbitrary bytes are written through the embedded client on the owner / on another member, the cluster client and a pipeline of a real "
+                   "in-process cluster, read back through another path into the same type, compared with the backup copy (R = 2), listed by a scan, and read again after a member joined and fragments migrated. Keys of 256+ bytes and entries of table size -2..+2 bytes "
+                   "must be rejected (key-too-large / entry-too-large; with R >= 2 any error, but never an acknowledgement), neighbours stay readable and no member stores a key that was never written (white box)."),
+    "level_note": "trusted: reflect-free typed comparison in the harness; NaN reads back as NaN (payload bits are not promised by a textual encoding), Time by Equal",
+    "rule": ("codec: every case is a boundary-or-random value of one type (all non-trivial). e2e: non-trivial = a key of >= 254 bytes or with CR/LF/NUL, a float special, a migration, or a rejection probe. distinct = distinct case hash"),
+    "assumptions": ["empty keys are not generated (no caller in the repository uses them)"],
+    "parts": [
+        {"name": "codec", "pkg": "./internal/resp", "test": "TestVerifC17Codec", "kind": "rapid",
+         "checks_quick": 4000, "checks_thorough": 200000, "shards_quick": 4, "shards_thorough": 16, "timeout_quick": 300, "timeout_thorough": 1800},
+        {"name": "e2e", "pkg": ROOT, "test": "TestVerifC17", "kind": "rapid",
+         "checks_quick": 30, "checks_thorough": 1200, "shards_quick": 8, "shards_thorough": 16, "timeout_quick": 300, "timeout_thorough": 1800},
+    ],
+}
